@@ -101,6 +101,22 @@ fn run_family(plan: &Plan, lib: &dyn Lib, rec: &mut Rec) {
         nv!(rec, rec_call(rec, lib, g, Op::Verify, &[&p[0], &a.pk, &p[2]]), "Signature::verify sig=O", g, scheme);
         nv!(rec, rec_call(rec, lib, g, Op::Verify, &[&p[0], &p[1], &[]]), "Signature::verify pk=O sig=O empty-msg", g, scheme);
     }
+    // --- values built through the public constructors from points that were never subgroup-checked: a point T of
+    // small order (r*Q for Q outside the subgroup) pairs to 1 with everything, so (pk = O, sig = T) satisfies the
+    // equation although neither guard on "sig = O" fires; same with an off-subgroup companion
+    {
+        let t_sig = refimpl::small_order_point(sl, plan.seed).to_bytes();
+        let q_sig = refimpl::off_subgroup_point(sl, plan.seed ^ 3);
+        let t_pk = refimpl::small_order_point(pl, plan.seed ^ 5).to_bytes();
+        for (what, sp) in [("small-order", &t_sig), ("off-subgroup", &q_sig)] {
+            let ts = refimpl::layout::tagged(scheme, sp);
+            nv!(rec, rec_call(rec, lib, g, Op::VerifyUnchecked, &[&[0], &ts, &id_pk, &msg]), &format!("Signature::verify pk=O sig={} (unchecked constructor)", what), g, scheme);
+            nv!(rec, rec_call(rec, lib, g, Op::VerifyUnchecked, &[&[1], &ts, &id_pk, &msg]), &format!("MultiSignature::verify key=O sig={} (unchecked constructor)", what), g, scheme);
+            nv!(rec, rec_call(rec, lib, g, Op::VerifyUnchecked, &[&[2], sp, &id_pk, &msg]), &format!("ProofOfPossession::verify pk=O pop={} (unchecked constructor)", what), g, scheme);
+        }
+        nv!(rec, rec_call(rec, lib, g, Op::VerifyUnchecked, &[&[0], &osig, &t_pk, &msg]), "Signature::verify pk=small-order sig=O (unchecked constructor)", g, scheme);
+        nv!(rec, rec_call(rec, lib, g, Op::VerifyUnchecked, &[&[2], &id_sig, &t_pk, &msg]), "ProofOfPossession::verify pk=small-order pop=O (unchecked constructor)", g, scheme);
+    }
     // --- multi-signature: key set {pk, -pk} accumulates to the identity; sig = O satisfies the equation
     let neg_pk = Pt::from_bytes(&a.pk).unwrap().neg().to_bytes();
     if let Some(mpk) = rec.call(lib, g, Op::MultiPk, &[&a.pk, &neg_pk]).first().map(|v| v.to_vec()) {
